@@ -4,6 +4,14 @@ import json, os
 V = os.path.dirname(os.path.dirname(os.path.abspath(__file__)))
 ALL = ["C%02d" % i for i in range(1, 21)]
 CHECKS = {
+ "C01": dict(cat="model_checking", design="4/C01",
+    text="Bounded symbolic execution of the real WriteEncoder/ReadDecoder/YowCoderLayer: payload length L in [0,2^24) at four tree positions, one unconstrained Latin-1 string per tree (tag, attribute key/value, data, JID user/server) of n<=3 (quick) / n<=5 (thorough) characters covering every code point combination, digit/nibble/hex strings of every packing length, every dictionary token via a symbolic index, list sizes across the 8/16-bit boundary and the integer read/write kernels over their full ranges. z3 discharges tree equality on every path; each path's model is replayed on the uninstrumented codec including the library's own __eq__.",
+    note="Trusted: sx engine models (selftest-validated against CPython and the repo's own tests), z3. Payload bytes abstract. Unconstrained strings longer than the bound and several unconstrained slots at once are outside the claim.",
+    technique="symbolic execution of the instrumented Python codec with z3 (LIA, div/mod lowering of bit operations), concrete replay of every model"),
+ "C02": dict(cat="model_checking", design="4/C02",
+    text="Differential symbolic execution of the library codec against ref/wabinary.py (independent encoder with explicit choice vector + decoder, frozen dictionary copy): every dictionary index both ways; ref_decode(lib_encode(t)) == t on the C01 families; lib_decode(ref_encode(t, choices)) == t for list16 / 20- and 31-bit length / literal / unpacked / no-JID / string-valued content choices; deflate checked with real zlib on every path witness.",
+    note="Trusted: the reference implementation and its frozen dictionary copy (extracted once from the pinned commit; no network), engine models, z3. zlib is not encoded (concrete on witnesses).",
+    technique="differential symbolic execution (library vs independent reference) with z3, concrete replay of every model"),
  "C05": dict(cat="model_checking", design="4/C05",
     text="Bounded symbolic execution of the real YowNoiseSegmentsLayer: frame lengths (1..2^24-1 each), payload contents and every chunk cut position are solver variables; z3 decides each path. Covers all streams of <=3 frames in <=3 chunks (quick) / <=4 frames in <=5 chunks (thorough), an inductive step from an arbitrary buffered prefix, and every outgoing length 0..2^25. Every path's model is replayed on the uninstrumented layer.",
     note="Trusted: CPython semantics of everything but the hooked constructs; sx engine models of struct.pack/unpack and bytearray slicing (self-validated); z3. Payload bytes are abstract (the layer only moves them). Longer streams rest on the step harness plus the checked assumption that the layer's only state is its read buffer.",
